@@ -861,9 +861,11 @@ func (p *sshFxpReadPacket) getDataSlice(alloc *allocator, orderID uint32, maxTxP
 		dataLen = maxTxPacket
 	}
 
-	if alloc != nil {
+	if alloc != nil && dataLen <= maxMsgLength {
 		// GetPage returns a slice with capacity = maxMsgLength this is enough to avoid new allocations in
-		// sshFxpDataPacket.MarshalBinary
+		// sshFxpDataPacket.MarshalBinary.
+		// A read longer than a page (possible when the maximum payload was raised above maxMsgLength)
+		// does not fit into one: it is served from a buffer of its own, as without the allocator.
 		return alloc.GetPage(orderID)[:dataLen]
 	}
 
